@@ -95,6 +95,7 @@ class Gen:
         self.stub = False     # currently inside a stub-included unit
         self.stub_units = []  # units whose contracts are used here without re-proving them
         self.skip = set()     # ADT names the including unit defines itself
+        self.plain = False    # plain Rust output (Kani units): no Verus-only syntax
 
     def cur_line(self):
         return len(self.lines) + 1
@@ -170,6 +171,8 @@ def apply_sections(body, sections, qual, g):
             s, e, _ = ms[nth - 1]
             if where == "before":
                 idx = s
+            elif where == "stmt":
+                idx = rw.stmt_start(body, s)
             elif where == "after":
                 idx = rw.stmt_end(body, s)
             elif where == "inside":
@@ -318,7 +321,8 @@ def gen_fn(g, header_words, block_lines):
             pat, tmpl, count = args
             sig, n = rw.rewrite(sig, pat, tmpl, count=count, what="%s sigrw" % qual)
             g.rule_log.append((qual, "R9 signature: `%s` => `%s`" % (pat, tmpl), n))
-    sig = name_return(sig)
+    if not g.plain:
+        sig = name_return(sig)
     sigtxt = emit_trim(sig)
     sigtxt2 = re.sub(r"^pub\s*\([^)]*\)\s*", "pub ", sigtxt)
     if not sigtxt2.startswith("pub "):
@@ -332,7 +336,7 @@ def gen_fn(g, header_words, block_lines):
         g.add("#[verifier::external_body] // proved-in-unit " + g.stub)
     for a in attrs:
         g.add(a)
-    if not g.stub and opts.get("isolation") != "on":
+    if not g.stub and not g.plain and opts.get("isolation") != "on":
         g.add("#[verifier::loop_isolation(false)]")
     g.add("// <extracted %s %s line %d>" % (path, qual, item.line))
     g.add(emit_trim(sig))
@@ -456,7 +460,9 @@ def _gen_into(g, unit_name, seen):
         if s.startswith("//@"):
             words = shlex.split(s[3:].strip(), posix=True)
             d = words[0]
-            if d == "include":
+            if d == "plain":
+                g.plain = True
+            elif d == "include":
                 for w in words[2:]:
                     if w.startswith("skip="):
                         g.skip |= set(w[5:].split(","))
